@@ -306,6 +306,14 @@ impl SimNet {
     pub fn live_sockets(&self) -> i64 {
         self.inner.lock().unwrap().live
     }
+    /// open sockets whose local address is on this host: UDP sockets, TCP listeners and TCP connection ends
+    pub fn live_sockets_of(&self, ip: std::net::IpAddr) -> Vec<String> {
+        let n = self.inner.lock().unwrap();
+        let mut v: Vec<String> = n.socks.keys().filter(|a| a.ip() == ip).map(|a| format!("udp {a}")).collect();
+        v.extend(n.tcp.sockets_of(ip));
+        v.sort();
+        v
+    }
 
     pub fn capture(&self, on: bool) {
         self.inner.lock().unwrap().capture_on = on;
